@@ -25,9 +25,11 @@ def preorder_ids(s):
 def real_layout(s, ux, uy, repeat):
     nodes = {}
     root = build(s, nodes)
-    m = TreeLayout().layout(root, float(ux), float(uy))
+    tl = TreeLayout()
+    m = tl.layout(root, float(ux), float(uy))
     if repeat:
-        m = TreeLayout().layout(root, float(ux), float(uy))
+        # alternately the same layout object and a fresh one: both are "laying out the same tree again"
+        m = (tl if (len(nodes) + int(ux * 2)) % 2 == 0 else TreeLayout()).layout(root, float(ux), float(uy))
     order = preorder_ids(s)
     xs = [Fraction(nodes[i].x) for i in order]
     ys = [Fraction(nodes[i].y) for i in order]
@@ -131,6 +133,12 @@ def c18(ctx):
             diffs.append({"shape": shape_wire(s), "units": [str(ux), str(uy)], "repeat": rep,
                           "impl": [[str(v) for v in got[0]], [str(v) for v in got[1]], [str(v) for v in got[2]]],
                           "model": a})
+        if rep:
+            # a repeated call must at least keep y = depth * unit and honest bounds (x of repeated
+            # calls is a known finding of the unchanged code)
+            for inv in sorted(invariants(s, got[0], got[1], got[2], ux, uy) & {"y_is_depth", "bounds_are_bbox"}):
+                unlisted.append({"shape": shape_wire(s), "units": [str(ux), str(uy)], "invariant": inv, "repeated_call": True,
+                                 "ys": [str(v) for v in got[1]], "bounds": [str(v) for v in got[2]]})
         # invariants that do not depend on the unit choice are judged at every unit
         if not rep:
             bad = invariants(s, got[0], got[1], got[2], ux, uy)
